@@ -1115,8 +1115,27 @@ pub fn suite_suffix(out: &mut Out, tier: &str, rng: &mut Rng) {
     for _ in 0..counts(tier, 4, 60) {
         bases.push(declared_message(rng));
     }
+    // control messages that must be REJECTED (vendor-specific, unknown, truncated records; a first AVP that is no
+    // Message Type) but whose declared end lies inside the buffer: their error lists must not depend on what follows
+    for k in 0..counts(tier, 24, 400) {
+        let mut body = if k % 7 == 6 { Vec::new() } else { enc_avp(&gen_message_type(rng)) };
+        for j in 0..(1 + k % 4) {
+            match (k + j) % 5 {
+                0 => body.extend(enc_record(1, 6 + (j as usize % 3) * 3 + 2, 9, 7, &rng.bytes((j as usize % 3) * 3 + 2))),
+                1 => body.extend(enc_record(1, 9, 0, 20 + (k as u16 % 60) * 2, &[1, 2, 3])),
+                2 => body.extend(enc_record(1, 7, 0, 9, &[1])),
+                3 => body.extend(enc_record(3, 6 + 16, 77, 7, &rng.bytes(16))),
+                _ => body.extend(enc_avp(&gen_avp(rng, 8))),
+            }
+        }
+        bases.push(enc_control_raw(flag_word(true, true, true, false, false, 2), None, [rng.u16(), rng.u16(), rng.u16(), rng.u16()], &body));
+    }
     for b in bases.iter() {
         let mut sfx: Vec<Vec<u8>> = Vec::new();
+        // (more than 64 KiB behind the message as well)
+        if b.len() % 5 == 0 || tier == "thorough" {
+            sfx.push(rng.bytes(65536 + 777));
+        }
         for n in 1..=24usize {
             sfx.push(vec![0u8; n]);
             if n % 3 == 0 || tier == "thorough" {
@@ -1429,6 +1448,35 @@ pub fn suite_fault(out: &mut Out, tier: &str, rng: &mut Rng) {
             emit(out, ctl(&mk(&text), i), ctl(&mk(&badtext), i), "InvalidUtf8", t as u32, &strict);
         }
     }
+    // faults in a message that is followed by more than 64 KiB of further messages in the same buffer
+    {
+        let hello = enc_control(&json!({"k": "Control", "length": 0, "tunnel_id": 1, "session_id": 0, "ns": 0, "nr": 0, "avps": [{"k": "MessageType", "f": ["Hello"]}]}));
+        let mut tail: Vec<u8> = Vec::new();
+        while tail.len() < 65536 + 500 {
+            tail.extend_from_slice(&hello);
+        }
+        for (v, t, good, bad) in [("UnknownAvp", 77u32, enc_record(1, 8, 0, 7, &[65, 66]), enc_record(1, 8, 0, 77, &[65, 66])),
+                                  ("UnsupportedVendorId", 4242, enc_record(1, 8, 0, 7, &[65, 66]), enc_record(1, 8, 4242, 7, &[65, 66])),
+                                  ("IncompleteAVP", 9, enc_record(1, 8, 0, 9, &[0, 1]), enc_record(1, 7, 0, 9, &[0])),
+                                  ("InvalidUtf8", 8, enc_record(1, 8, 0, 8, &[65, 66]), enc_record(1, 8, 0, 8, &[65, 0xff])),
+                                  ("UnknownMessageType", 5, enc_record(1, 8, 0, 0, &[0, 6]), enc_record(1, 8, 0, 0, &[0, 5]))] {
+            let mt = enc_avp(&gen_message_type(rng));
+            // the octets behind the 12-octet header: 65536 + r for small r (a count kept in 16 bits sees only r there),
+            // and an arbitrary larger amount
+            for r in [0usize, 1, 7, 15, 500] {
+                let mk = |rec: &[u8]| {
+                    let mut b = mt.clone();
+                    b.extend_from_slice(rec);
+                    let mut w = enc_control_raw(flag_word(true, true, true, false, false, 2), None, [1, 2, 3, 4], &b);
+                    let want = 12 + 65536 + r;
+                    let need = want - w.len();
+                    w.extend_from_slice(&tail[..need]);
+                    w
+                };
+                emit(out, mk(&good), mk(&bad), v, t, &strict);
+            }
+        }
+    }
     // the same kinds of fault at other places and under other circumstances: 0..5 valid AVPs before and 0..3
     // after the faulty one, the faulty record's M bit clear or reserved bits set (both ignored by the layout),
     // special header ids, every message type in front
@@ -1717,6 +1765,35 @@ pub fn suite_ctl_records(out: &mut Out, tier: &str, rng: &mut Rng) {
 
 /// large inputs: sums of wire-supplied 16-bit quantities near 65 535 with the octets really present
 pub fn suite_decode_big(out: &mut Out, tier: &str, rng: &mut Rng) {
+    // valid and invalid control / data messages with 65536 + r octets (small r) behind their 12-octet header in the
+    // same buffer: a remaining-length kept in 16 bits sees only r
+    {
+        let hello = enc_control(&json!({"k": "Control", "length": 0, "tunnel_id": 1, "session_id": 0, "ns": 0, "nr": 0, "avps": [{"k": "MessageType", "f": ["Hello"]}]}));
+        let mut tail: Vec<u8> = Vec::new();
+        while tail.len() < 65536 + 600 {
+            tail.extend_from_slice(&hello);
+        }
+        for r in [0usize, 1, 7, 15, 33, 500] {
+            for k in 0..4usize {
+                let mut w = match k {
+                    0 => enc_control(&gen_control(rng, 4, 10)),
+                    1 => { let mut b = enc_avp(&gen_message_type(rng)); b.extend(random_record(rng)); enc_control_raw(flag_word(true, true, true, false, false, 2), None, [1, 2, 3, 4], &b) }
+                    2 => { let mut d = gen_data(rng, 12); d["offset"] = json!([]); enc_data_from_value(&d, rng) }
+                    _ => enc_control(&json!({"k": "Control", "length": 0, "tunnel_id": 1, "session_id": 2, "ns": 3, "nr": 4, "avps": []})),
+                };
+                let want = 12 + 65536 + r;
+                if w.len() < want {
+                    let need = want - w.len();
+                    w.extend_from_slice(&tail[..need]);
+                }
+                out.emit(json!({"op": "decode", "in": bytes_json(&w), "opts": [true, true, true], "entry": "validate", "rdr": "slice"}));
+                if k == 0 {
+                    out.emit(json!({"op": "decode_seq", "in": bytes_json(&w[..w.len().min(70000)]), "opts": [true, true, true], "entry": "validate", "max": 3}));
+                }
+            }
+        }
+    }
+
     let strict = json!([true, true, true]);
     // data messages whose offset pad is nearly 64 KiB (and is really there)
     let osizes: Vec<u16> = if tier == "thorough" {
@@ -1889,6 +1966,27 @@ pub fn suite_history(out: &mut Out, tier: &str, rng: &mut Rng) {
             calls.push(json!({"op": "decode", "in": bytes_json(&w), "opts": [true, true, true], "entry": "validate", "rdr": "slice", "id": 0}));
             let clean = gen_control(rng, 3, 8);
             calls.push(json!({"op": "decode", "in": bytes_json(&enc_control(&clean)), "opts": [true, true, true], "entry": "validate", "rdr": "slice", "id": 0}));
+        }
+        // two different secrets with the SAME MD5 (the published Wang et al. 128-octet collision pair), used one after
+        // the other with everything else equal: anything keyed on a digest of the secret confuses them
+        {
+            let unhex = |h: &str| -> Vec<u8> { (0..h.len() / 2).map(|i| u8::from_str_radix(&h[2 * i..2 * i + 2], 16).unwrap()).collect() };
+            let s1 = unhex("d131dd02c5e6eec4693d9a0698aff95c2fcab58712467eab4004583eb8fb7f8955ad340609f4b30283e488832571415a085125e8f7cdc99fd91dbdf280373c5bd8823e3156348f5bae6dacd436c919c6dd53e2b487da03fd02396306d248cda0e99f33420f577ee8ce54b67080a80d1ec69821bcb6a8839396f9652b6ff72a70");
+            let s2 = unhex("d131dd02c5e6eec4693d9a0698aff95c2fcab50712467eab4004583eb8fb7f8955ad340609f4b30283e4888325f1415a085125e8f7cdc99fd91dbd7280373c5bd8823e3156348f5bae6dacd436c919c6dd53e23487da03fd02396306d248cda0e99f33420f577ee8ce54b67080280d1ec69821bcb6a8839396f965ab6ff72a70");
+            for rep in 0..2 {
+                let a = if rep == 0 { host(20, rng) } else { gen_avp_kind(rng, 11, 30) };
+                let rv = rng.bytes(4);
+                // (pairs with unrelated calls around them: in the reversed rounds the second of a pair comes first)
+                for pair in [[&s1, &s2], [&s2, &s1]] {
+                    let other = gen_avp_kind(rng, 21, 8);
+                    calls.push(json!({"op": "hide", "v": other, "secret": bytes_json(&rng.rbytes(1, 9)), "rv": bytes_json(&rng.bytes(4)), "lp": [], "ap": bytes_json(&[0u8; 16]), "id": 0}));
+                    for sec in pair {
+                        calls.push(json!({"op": "hide_reveal", "v": a, "secret": bytes_json(sec), "rv": bytes_json(&rv), "lp": [], "ap": bytes_json(&[0u8; 16]), "id": 0}));
+                    }
+                    let other = gen_avp_kind(rng, 22, 8);
+                    calls.push(json!({"op": "hide", "v": other, "secret": bytes_json(&rng.rbytes(1, 9)), "rv": bytes_json(&rng.bytes(4)), "lp": [], "ap": bytes_json(&[0u8; 16]), "id": 0}));
+                }
+            }
         }
         // arguments of one call assembled from what the previous call left in its working buffers: after a hide of
         // two or more blocks the last MD5 input was `secret || previous cipher block`; the next hide's
